@@ -17,7 +17,7 @@ RULE = ("history = 1-15 PooledClient calls (legal arguments; store/fetch/multi-k
         "connection is checked out; a socket on which a fault fired, or that was used by a call that raised or swallowed "
         "an error, or by quit / close / disconnect_all (after which the object is used again), is closed when the call ends and never touched again; a socket that has only carried "
         "successful calls and idled <= timeout is reused by the next call (no new socket); idled > timeout: it is closed "
-        "at the next checkout and a new one opened; 'Too many objects' never occurs. Re-entrant calls: a serializer that itself uses the same PooledClient, so that a second pooled call starts and ends while the first holds its connection (within one thread): outer set/set_many/get/get_many x inner get/set/get_many/version/quit x 0-2 warm connections x a fault on the nested exchange (swallowed by the serializer or not) x ignore_exc x max_pool_size {2,3,None}; afterwards nothing is checked out, no connection is listed twice, no open socket lives outside the pool, two healthy connections stay idle and are reused by the following calls, close() closes everything. Non-trivial: a fault that fired is "
+        "at the next checkout and a new one opened; 'Too many objects' never occurs. Deserialiser failures: reads in which one item of the reply cannot be deserialised (ten exception types, the first / a later / every key), replies apart or coalesced - the connection counts as failed. Re-entrant calls: a serializer that itself uses the same PooledClient, so that a second pooled call starts and ends while the first holds its connection (within one thread): outer set/set_many/get/get_many x inner get/set/get_many/version/quit x 0-2 warm connections x a fault on the nested exchange (swallowed by the serializer or not) x ignore_exc x max_pool_size {2,3,None}; afterwards nothing is checked out, no connection is listed twice, no open socket lives outside the pool, two healthy connections stay idle and are reused by the following calls, close() closes everything. Non-trivial: a fault that fired is "
         "followed by a later call, or a gap above the idle timeout is followed by a call.")
 MANIFEST = {
     "category": "fault_enumeration",
@@ -95,6 +95,14 @@ def check(case):
                                     % (live, now - st_["last_release"], idle, where))
                 labels.add("reused")
         failed = out[0] == "exc" or bool(fired_real) and (out[0] == "ok" and cfg.get("ignore_exc") and call["op"]["op"] in faultlab.READ_OPS + ("stats",))
+        fs = cfg.get("failing_serde")
+        if fs and call["op"]["op"] in faultlab.READ_OPS:
+            # an item of the reply could not be deserialised: a failed call like any other (raised, or swallowed under ignore_exc)
+            ks = [call["op"]["key"]] if "key" in call["op"] else list(call["op"].get("keys", ()))
+            if fs.get("keys") is None or any(k in fs["keys"] for k in ks):
+                failed = True
+                labels.add("deserialiser-failure")
+                st_["had_fault"] = True
         opened = [s for s in net.sockets if not s.closed]
         if failed or call["op"]["op"] in ("quit", "close", "disconnect_all"):
             still = [s.id for s in opened if s.id in used_socks or s.id == live or s.id in new]
@@ -156,6 +164,16 @@ def sweep_cases(tier, seed):
                         yield {"kind": "pooled", "cfg": cfg, "calls": [{"op": OPS[0]}, {"op": r, "advance": gap}, {"op": OPS[2], "advance": gap}, {"op": OPS[3]}]}
                         if r["op"] in ("close", "disconnect_all", "quit"):
                             yield {"kind": "pooled", "cfg": cfg, "calls": [{"op": OPS[0]}, {"op": r, "advance": gap}, {"op": OPS[2]}, {"op": r}, {"op": r}, {"op": OPS[0], "advance": gap}, {"op": OPS[4]}, {"op": OPS[3]}]}
+
+
+def serde_failure_cases(tier, seed):
+    """mixed outcomes inside one read: some items of the reply deserialise, a later one does not (any exception type); the
+    rest of the reply is still on the wire when the call ends - that connection is failed, not healthy"""
+    for case in c01.serde_failure_cases(tier, seed):
+        if case["kind"] != "pooled":
+            continue
+        for idle in (0, 5):
+            yield dict(case, cfg=dict(case["cfg"], pool_idle_timeout=idle))
 
 
 def fractional_idle_cases(tier, seed):
@@ -317,6 +335,7 @@ def check_reentrant(case, interruption=None):
 PARTS = [
     Part("re-entrant-calls", "enum", check_reentrant, cases=reentrant_cases, exhaustive=True),
     Part("fault-and-gap-sweep", "enum", check, cases=sweep_cases, exhaustive=True),
+    Part("deserialiser-failures", "enum", check, cases=serde_failure_cases, exhaustive=True),
     Part("fractional-idle-timeouts", "enum", check, cases=fractional_idle_cases, exhaustive=True),
     Part("random-histories", "hyp", check, strategy=history_strategy,
          examples={"quick": 300, "thorough": 12000}, shards={"quick": 4, "thorough": 16}),
